@@ -104,7 +104,7 @@ func (e *Engine) fixLin(p *Path, v *Int) *Int {
 	return v
 }
 
-func (e *Engine) binop(p *Path, fr *frame, x *ssa.BinOp) Value {
+func (e *Engine) binop(p *Path, fr *Frame, x *ssa.BinOp) Value {
 	l := e.operand(p, fr, x.X)
 	r := e.operand(p, fr, x.Y)
 	switch x.Op {
@@ -426,8 +426,8 @@ func isNilValue(v Value) int {
 	switch x := v.(type) {
 	case *NilV:
 		return 1
-	case *ErrV, *Ptr, *Iface, *Closure, *BytePtr:
-		return 2
+	case *ErrV, *Ptr, *Iface, *Closure, *BytePtr, *SymIface:
+		return 2 // lazily symbolic interfaces are non-nil; the nil partition is a separate variant (NilNames)
 	case *Slice:
 		_ = x
 		return 2
